@@ -78,33 +78,24 @@ class ParseAPI(object):
         Return a :class:`BIP32 <pycoin.key.BIP32Node.BIP32Node>` or None.
         """
         pair = parse_colon_prefix(s)
-        if pair is None or pair[0] not in "HP":
+        if pair is None or pair[0] not in ("H", "P"):
             return None
-        if pair[0] == "H":
-            try:
+        try:
+            if pair[0] == "H":
                 master_secret = h2b(pair[1])
-            except ValueError:
-                return None
-        else:
-            master_secret = pair[1].encode("utf8")  # type: ignore[assignment]
-        return self._network.keys.bip32_seed(master_secret)
+            else:
+                master_secret = pair[1].encode("utf8")
+            return self._network.keys.bip32_seed(master_secret)
+        except ValueError:
+            # not hex, not encodable, or a seed without a valid master key
+            return None
 
     def hd_seed(self, s: str) -> Any:
         """
-        Parse a bip32 private key from a seed.
+        Parse a bip32 private key from a seed (alias of :meth:`bip32_seed`).
         Return a :class:`BIP32 <pycoin.key.BIP32Node.BIP32Node>` or None.
         """
-        pair = parse_colon_prefix(s)
-        if pair is None or pair[0] not in "HP":
-            return None
-        if pair[0] == "H":
-            try:
-                master_secret = h2b(pair[1])
-            except ValueError:
-                return None
-        else:
-            master_secret = pair[1].encode("utf8")  # type: ignore[assignment]
-        return self._network.keys.hd_seed(master_secret)
+        return self.bip32_seed(s)
 
     def bip32_prv(self, s: str) -> Any:
         """
@@ -202,7 +193,11 @@ class ParseAPI(object):
         blob = self._electrum_to_blob(s)
         if blob and len(blob) == 32:
             mpk = from_bytes_32(blob)
-            return self._network.keys.electrum_private(master_private_key=mpk)
+            try:
+                return self._network.keys.electrum_private(master_private_key=mpk)
+            except ValueError:
+                # not in 1..order-1
+                pass
         return None
 
     def electrum_pub(self, s: str) -> Any:
@@ -213,7 +208,11 @@ class ParseAPI(object):
         """
         blob = self._electrum_to_blob(s)
         if blob and len(blob) == 64:
-            return self._network.keys.electrum_public(master_public_key=blob)
+            try:
+                return self._network.keys.electrum_public(master_public_key=blob)
+            except ValueError:
+                # not a point of the curve
+                pass
         return None
 
     def p2pkh(self, s: str) -> Contract | None:
